@@ -20,6 +20,8 @@ mod khcommon;
 mod c01;
 mod c05;
 mod c03;
+mod c06;
+mod c19;
 
 use framework::*;
 
@@ -31,6 +33,8 @@ fn check_by_id(id: &str) -> Option<Box<dyn Check>> {
         "C01" => Some(Box::new(c01::C01)),
         "C05" => Some(Box::new(c05::C05)),
         "C03" => Some(Box::new(c03::C03)),
+        "C06" => Some(Box::new(c06::C06)),
+        "C19" => Some(Box::new(c19::C19)),
         _ => None,
     }
 }
